@@ -54,9 +54,19 @@ MODULES = {
         (None, 'calculate_viability_and_necessity'), (None, 'prune_unviable_and_unnecessary_nodes'),
     ]),
 }
-MODULE_ORDER = ['Node', 'Attacker', 'NodeDelegates', 'Query', 'Graph', 'Apriori']
+MODULES['Eval'] = ('maltoolbox/attackgraph/attackgraph.py', [(None, '_process_step_expression')])
+MODULE_ORDER = ['Node', 'Attacker', 'NodeDelegates', 'Query', 'Graph', 'Apriori', 'Eval']
 IMPORTS = {'Node': [], 'Attacker': ['Node'], 'NodeDelegates': ['Attacker'], 'Query': ['Node'],
-           'Graph': ['Attacker'], 'Apriori': ['Graph']}
+           'Graph': ['Attacker'], 'Apriori': ['Graph'], 'Eval': []}
+
+# `lang_graph` / `model` parameters of the step-expression evaluator: their methods are *parameters* of the
+# translation (fields of `EvalEnv` in the prelude), not translated code.  name -> (argument types, result, raises)
+ENV_METHODS = {
+    'get_associated_assets_by_field_name': (['asset_obj', 'str'], ('list', 'asset_obj'), False),
+    '_get_variable_for_asset_type_by_name': (['str', 'str'], 'expr', True),
+    'get_asset_by_name': (['str'], ('opt', 'lgasset'), False),
+}
+EXPR_KEYS = {'type': 'str', 'name': 'str', 'subType': 'str', 'lhs': 'expr', 'rhs': 'expr', 'stepExpression': 'expr'}
 
 CLASS_TYPE = {'AttackGraphNode': 'node', 'Attacker': 'att', 'AttackGraph': 'graph'}
 PREFIX = {'node': 'node_', 'att': 'attacker_', 'graph': 'graph_', None: ''}
@@ -73,6 +83,7 @@ ATTRS = {
               '_id_to_node': ('dict', 'int', 'node'), '_full_name_to_node': ('dict', 'str', 'node'),
               '_id_to_attacker': ('dict', 'int', 'att'), 'next_node_id': 'int', 'next_attacker_id': 'int'},
     'asset': {'name': 'str'},
+    'asset_obj': {'id': 'int', 'type': 'str', 'name': 'str'},
 }
 PROPERTIES = {('node', 'full_name')}
 STORE = {'node': 'n', 'att': 'a'}
@@ -83,7 +94,7 @@ LEAN_KEYWORDS = {'end', 'at', 'from', 'have', 'show', 'fun', 'then', 'else', 'do
                  'catch', 'finally', 'break', 'continue', 'calc', 'obtain', 'using', 'deriving', 'extends',
                  'local', 'private', 'protected', 'set_option', 'attribute', 'macro', 'syntax', 'notation',
                  'infix', 'prefix', 'postfix', 'mutual', 'partial', 'unsafe', 'noncomputable', 's', 'fuel'}
-EXC = {'ValueError': 'PyErr.valueError', 'AttackGraphException': 'PyErr.attackGraphException',
+EXC = {'LookupError': 'PyErr.lookupError', 'ValueError': 'PyErr.valueError', 'AttackGraphException': 'PyErr.attackGraphException',
        'AssertionError': 'PyErr.assertionError', 'KeyError': 'PyErr.keyError'}
 
 def lean_type(t):
@@ -95,6 +106,11 @@ def lean_type(t):
     if t == 'float': return 'PyFloat'
     if t == 'dictS': return 'PyDictS'
     if t == 'asset': return 'PyAsset'
+    if t == 'asset_obj': return 'PyAssetObj'
+    if t == 'expr': return 'PyExpr'
+    if t == 'lgasset': return 'LgAsset'
+    if t == 'env': return 'EvalEnv'
+    if isinstance(t, tuple) and t[0] == 'tuple': return '(' + ' × '.join(lean_type(x) for x in t[1:]) + ')'
     if isinstance(t, tuple) and t[0] == 'opt': return f'(Option {lean_type(t[1])})'
     if isinstance(t, tuple) and t[0] == 'list': return f'(List {lean_type(t[1])})'
     if isinstance(t, tuple) and t[0] == 'dict': return f'(List ({lean_type(t[1])} × {lean_type(t[2])}))'
@@ -107,7 +123,9 @@ def ann_type(a: ast.expr | None):
     table = {'AttackGraphNode': 'node', 'Attacker': 'att', 'AttackGraph': 'graph', 'bool': 'bool', 'int': 'int',
              'str': 'str', 'None': 'none', 'list[AttackGraphNode]': ('list', 'node'), 'list[int]': ('list', 'int'),
              'Optional[int]': ('opt', 'int'), 'Optional[AttackGraphNode]': ('opt', 'node'),
-             'Optional[Attacker]': ('opt', 'att'), 'list[Attacker]': ('list', 'att')}
+             'Optional[Attacker]': ('opt', 'att'), 'list[Attacker]': ('list', 'att'),
+             'LanguageGraph': 'env', 'Model': 'env', 'list[Any]': ('list', 'asset_obj'), 'dict[str,Any]': 'expr',
+             'tuple[list,Optional[str]]': ('tuple', ('list', 'asset_obj'), ('opt', 'str'))}
     if src in table: return table[src]
     raise Unsupported(f'annotation {src}')
 
@@ -130,6 +148,7 @@ class Fn:
             else:
                 self.params.append((a.arg, ann_type(a.annotation)))
         self.ret = ann_type(node.returns) if node.returns is not None else 'none'
+        self.uses_env = any(t == 'env' for _, t in self.params)
         self.calls: set[str] = set()
         self.mutates = False
         self.raises = False
@@ -184,6 +203,9 @@ class Effects(ast.NodeVisitor):
             return
         self.generic_visit(n)
     def visit_Raise(self, n): self.fn.raises = True
+    def visit_While(self, n):
+        self.fn.raises = True          # the bounded unrolling raises PyErr.nonTermination when exhausted
+        self.generic_visit(n)
     def visit_Assert(self, n): self.fn.raises = True
     def visit_Delete(self, n): self.fn.raises = True; self.fn.mutates = True
     def visit_Assign(self, n):
@@ -205,6 +227,9 @@ class Effects(ast.NodeVisitor):
                 if m == 'remove' : self.fn.raises = True
             recv = n.func.value
             rt = self.env.get(recv.id) if isinstance(recv, ast.Name) else None
+            if rt == 'env' and m in ENV_METHODS:
+                if ENV_METHODS[m][2]: self.fn.raises = True
+                self.generic_visit(n); return
             for f in self.by_name.get(m, []):
                 if f.cls is not None and (rt is None or rt == f.selftype): self.fn.calls.add(f.lean)
         elif isinstance(n.func, ast.Name):
@@ -237,6 +262,7 @@ def analyse(fns):
             if c in seen: continue
             seen.add(c); todo.extend(fns[c].calls)
         f.recursive = f.lean in seen
+        if f.recursive and not f.mutates: f.raises = True      # out of fuel = RecursionError
         f.reaches_recursive = any(fns[c].recursive for c in seen)
         if f.recursive and any(c != f.lean and fns[c].recursive and f.lean in _reach(fns, c) for c in f.calls):
             raise Unsupported(f'mutual recursion through {f.lean}')
@@ -258,6 +284,7 @@ class Tr:
         self.lines: list[str] = []
         self.monadic = fn.raises
         self.tmp = 0
+        self.tuple_parts: dict[str, list] = {}
 
     # ---- helpers
     def fresh(self, base):
@@ -269,9 +296,9 @@ class Tr:
         if isinstance(t, tuple) and t[0] == 'opt' and t[1] == 'dictS': return f'(dictTruthy {lean})'
         if t == ('opt', 'bool'): return f'(truthyOptBool {lean})'
         if t == ('opt', 'int'): return f'(truthyOptInt {lean})'
-        if isinstance(t, tuple) and t[0] == 'opt' and t[1] in ('node', 'att', 'asset'): return f'({lean}).isSome'
+        if isinstance(t, tuple) and t[0] == 'opt' and t[1] in ('node', 'att', 'asset', 'asset_obj', 'lgasset'): return f'({lean}).isSome'
         if isinstance(t, tuple) and t[0] == 'list': return f'!({lean}).isEmpty'
-        if t in ('node', 'att', 'asset'): return 'true'
+        if t in ('node', 'att', 'asset', 'asset_obj', 'lgasset'): return 'true'
         raise Unsupported(f'truthiness of type {t}')
     def as_int(self, lean, t):
         if t == 'int': return lean
@@ -304,8 +331,8 @@ class Tr:
                     return f'({PREFIX[bt]}{e.attr} s {base})', 'str'
                 if e.attr in ATTRS[bt]: return f'(s.{STORE[bt]} {base}).{e.attr}', ATTRS[bt][e.attr]
                 raise Unsupported(f'{bt} attribute {e.attr}')
-            if bt == 'asset':
-                if e.attr in ATTRS['asset']: return f'{base}.{e.attr}', ATTRS['asset'][e.attr]
+            if bt in ('asset', 'asset_obj'):
+                if e.attr in ATTRS[bt]: return f'{base}.{e.attr}', ATTRS[bt][e.attr]
             raise Unsupported(f'attribute {e.attr} of {bt}')
         if isinstance(e, ast.UnaryOp) and isinstance(e.op, ast.Not):
             x, t = self.expr(e.operand)
@@ -328,7 +355,14 @@ class Tr:
             base, bt = self.expr(e.value)
             k, kt = self.expr(e.slice)
             if bt == ('opt', 'dictS') and kt == 'str': return f'(dictGetS {base} {k})', 'str'
+            if bt == 'expr' and isinstance(e.slice, ast.Constant) and e.slice.value in EXPR_KEYS:
+                return f'{base}.{e.slice.value}', EXPR_KEYS[e.slice.value]
             raise Unsupported(f'subscript on {bt}')
+        if isinstance(e, ast.Tuple):
+            parts = [self.expr(v) for v in e.elts]
+            txt = '(' + ', '.join(x for x, _ in parts) + ')'
+            self.tuple_parts[txt] = parts
+            return txt, ('tuple',) + tuple(t for _, t in parts)
         if isinstance(e, ast.List):
             parts = [self.expr(v) for v in e.elts]
             if not parts: return '[]', ('list', '?')
@@ -429,6 +463,7 @@ class Tr:
             params = params[1:]
         if len(args) != len(params): raise Unsupported(f'call of {f.lean}: all {len(params)} arguments must be given')
         for (pn, pt), a in zip(params, args):
+            if pt == 'env': continue
             x, t = self.expr(a)
             if pt == 'graph': continue
             if t != pt:
@@ -440,7 +475,9 @@ class Tr:
 
     def fuel_arg(self, f: Fn):
         if not f.recursive: return ''
-        return 'fuel ' if (self.fn.recursive and f.lean == self.fn.lean) else '(pyFuel s) '
+        if self.fn.recursive and f.lean == self.fn.lean: return 'fuel '
+        if f.uses_env: raise Unsupported('call of a recursive evaluator function from another function')
+        return '(pyFuel s) '
 
     def resolve_call(self, e: ast.Call):
         """(Fn, receiver lean, args) if e calls a translated function"""
@@ -464,13 +501,55 @@ class Tr:
             f, recv, args = r
             if f.mutates: raise Unsupported(f'call of mutating function {f.lean} inside an expression')
             la = self.call_args(f, recv, args)
-            txt = f'{f.lean} {self.fuel_arg(f)}s ' + ' '.join(la)
+            txt = f'{f.lean} {self.fuel_arg(f)}{"env" if f.uses_env else "s"} ' + ' '.join(la)
             if f.raises:
                 if not self.monadic: raise Unsupported('raising call in pure function')
                 return f'(← {txt.strip()})', f.ret
             return f'({txt.strip()})', f.ret
+        if isinstance(e.func, ast.Attribute) and not e.keywords:
+            m = e.func.attr
+            try: recv, rt = self.expr(e.func.value)
+            except Unsupported: recv, rt = None, None
+            if rt == 'env' and m in ENV_METHODS:
+                ats, ret, raises = ENV_METHODS[m]
+                if len(e.args) != len(ats): raise Unsupported(f'arity of {m}')
+                xs = []
+                for a, want in zip(e.args, ats):
+                    x, t = self.expr(a)
+                    if t != want: raise Unsupported(f'{m}: argument of type {t}, expected {want}')
+                    xs.append(x)
+                txt = f'env.{m} ' + ' '.join(xs)
+                if raises:
+                    if not self.monadic: raise Unsupported('raising call in pure function')
+                    return f'(← {txt})', ret
+                return f'({txt})', ret
+            if rt == 'lgasset' and m == 'is_subasset_of' and len(e.args) == 1:
+                x, t = self.expr(e.args[0])
+                if t != 'lgasset': raise Unsupported('is_subasset_of argument')
+                return f'(env.is_subasset_of {recv} {x})', 'bool'
         if isinstance(e.func, ast.Name):
             n = e.func.id
+            if n == 'hasattr' and len(e.args) == 2 and isinstance(e.args[1], ast.Constant):
+                x, t = self.expr(e.args[0])
+                if t in ATTRS and e.args[1].value in ATTRS[t]: return 'true', 'bool'
+                raise Unsupported(f'hasattr on {t}')
+            if n == 'next' and len(e.args) == 2 and isinstance(e.args[0], ast.GeneratorExp) and \
+                    isinstance(e.args[1], ast.Constant) and e.args[1].value is None:
+                # next((v for v in L if cond), None): the first element satisfying cond, or None
+                ge = e.args[0]
+                if len(ge.generators) != 1 or not isinstance(ge.generators[0].target, ast.Name) or \
+                        not (isinstance(ge.elt, ast.Name) and ge.elt.id == ge.generators[0].target.id):
+                    raise Unsupported('generator shape in next()')
+                g = ge.generators[0]
+                it, itt = self.expr(g.iter)
+                if not (isinstance(itt, tuple) and itt[0] == 'list'): raise Unsupported('next() over non-list')
+                v = g.target.id
+                saved = self.locals.get(v); self.locals[v] = itt[1]
+                conds = [self.expr(c) for c in g.ifs]
+                if saved is None: del self.locals[v]
+                else: self.locals[v] = saved
+                body = ' && '.join(self.truthy(cx, ct) for cx, ct in conds) or 'true'
+                return f'(({it}).find? (fun {esc(v)} => {body}))', ('opt', itt[1])
             if n == 'len' and len(e.args) == 1:
                 x, t = self.expr(e.args[0])
                 if isinstance(t, tuple) and t[0] == 'list': return f'(({x}).length : Int)', 'int'
@@ -517,6 +596,9 @@ class Tr:
             if t == ('opt', '?'): return 'none'
         if isinstance(want, tuple) and want[0] == 'list' and t == ('list', '?'): return x
         if want == 'bool' and t == ('opt', 'bool'): return f'(optBoolGet {x})'
+        if isinstance(want, tuple) and want[0] == 'tuple' and isinstance(t, tuple) and t[0] == 'tuple' and len(t) == len(want) \
+                and x in self.tuple_parts:
+            return '(' + ', '.join(self.coerce(px, pt, w) for (px, pt), w in zip(self.tuple_parts[x], want[1:])) + ')'
         raise Unsupported(f'cannot store {t} into {want}')
 
     # ---- statements
@@ -560,11 +642,20 @@ class Tr:
                         elif isinstance(tgt, ast.Attribute): self.write_attr(ind, tgt, new)
                         else: raise Unsupported('append target')
                         return
+                if isinstance(v.func, ast.Attribute) and v.func.attr == 'extend' and len(v.args) == 1 and isinstance(v.func.value, ast.Name):
+                    tgt = v.func.value
+                    l, lt = self.expr(tgt)
+                    x, xt = self.expr(v.args[0])
+                    if isinstance(lt, tuple) and lt[0] == 'list' and isinstance(xt, tuple) and xt[0] == 'list':
+                        if lt[1] == '?': lt = xt; self.locals[tgt.id] = lt
+                        if xt != lt: raise Unsupported(f'extend of {xt} to {lt}')
+                        self.emit(ind, f'{esc(tgt.id)} := ({l} ++ {x})')
+                        return
                 r = self.resolve_call(v)
                 if r:
                     f, recv, args = r
                     la = self.call_args(f, recv, args)
-                    txt = f'{f.lean} {self.fuel_arg(f)}s ' + ' '.join(la)
+                    txt = f'{f.lean} {self.fuel_arg(f)}{"env" if f.uses_env else "s"} ' + ' '.join(la)
                     if f.mutates:
                         self.emit(ind, f's ← {txt.strip()}' if f.raises else f's := {txt.strip()}')
                     elif f.raises:
@@ -575,6 +666,23 @@ class Tr:
         if isinstance(st, ast.Assign):
             if len(st.targets) != 1: raise Unsupported('multiple assignment')
             tgt = st.targets[0]
+            if isinstance(tgt, ast.Tuple) and all(isinstance(x, ast.Name) for x in tgt.elts):
+                x, t = self.expr(st.value)
+                if not (isinstance(t, tuple) and t[0] == 'tuple' and len(t) - 1 == len(tgt.elts)): raise Unsupported('tuple unpacking')
+                tmp = self.fresh('r')
+                self.emit(ind, f'let {tmp} := {x}')
+                for i, (nm, ct) in enumerate(zip(tgt.elts, t[1:])):
+                    if nm.id == '_' or nm.id in self.skip_locals: continue
+                    proj = f'{tmp}.{i + 1}' if len(tgt.elts) == 2 else None
+                    if proj is None: raise Unsupported('tuple of more than two components')
+                    self.first_types.setdefault(nm.id, ct)
+                    if nm.id in self.locals and nm.id in self.declared:
+                        self.emit(ind, f'{esc(nm.id)} := {self.coerce(proj, ct, self.locals[nm.id]) if self.locals[nm.id] != ("list", "?") else proj}')
+                        if self.locals[nm.id] == ('list', '?'): self.locals[nm.id] = ct
+                    else:
+                        self.locals[nm.id] = ct; self.declared.add(nm.id)
+                        self.emit(ind, f'let mut {esc(nm.id)} : {lean_type(ct)} := {proj}')
+                return
             if isinstance(tgt, ast.Name) and tgt.id in self.skip_locals:
                 if not isinstance(st.value, (ast.Constant, ast.JoinedStr)) and not \
                         (isinstance(st.value, ast.BinOp) and all(isinstance(n, (ast.Constant, ast.BinOp, ast.operator, ast.expr_context)) for n in ast.walk(st.value))):
@@ -582,6 +690,7 @@ class Tr:
                 return
             x, t = self.expr(st.value)
             if isinstance(tgt, ast.Name):
+                self.narrow.pop(ast.dump(ast.Name(id=tgt.id, ctx=ast.Load())), None)
                 self.first_types.setdefault(tgt.id, t)
                 if tgt.id in self.locals and tgt.id in self.declared:
                     self.emit(ind, f'{esc(tgt.id)} := {self.coerce(x, t, self.locals[tgt.id]) if self.locals[tgt.id] != ("list", "?") else x}')
@@ -589,6 +698,9 @@ class Tr:
                 else:
                     self.locals[tgt.id] = t
                     self.declared.add(tgt.id)
+                    if isinstance(t, tuple) and '?' in t and not self.dry:
+                        t2 = self.var_types.get(tgt.id)
+                        if t2 is not None and not (isinstance(t2, tuple) and '?' in t2): t = t2; self.locals[tgt.id] = t
                     ann = '' if (isinstance(t, tuple) and '?' in t) else f' : {lean_type(t)}'
                     self.emit(ind, f'let mut {esc(tgt.id)}{ann} := {x}')
                 return
@@ -640,6 +752,22 @@ class Tr:
             if is_logger_call(st.test):
                 if only_logging(st.body) and not st.orelse: return
                 raise Unsupported('logger guard around non-logging code')
+            # `if not x: raise E` on an Optional local: afterwards x is known to be present
+            t0 = st.test
+            body0 = [b for b in st.body if not (isinstance(b, ast.Expr) and (is_logger_call(b.value) or isinstance(b.value, ast.Constant)))]
+            if isinstance(t0, ast.UnaryOp) and isinstance(t0.op, ast.Not) and isinstance(t0.operand, ast.Name) and not st.orelse \
+                    and len(body0) == 1 and isinstance(body0[0], ast.Raise) and self.monadic:
+                x, xt = self.expr(t0.operand)
+                if isinstance(xt, tuple) and xt[0] == 'opt' and xt[1] in ('lgasset', 'node', 'att', 'asset_obj'):
+                    name = None
+                    exc = body0[0].exc
+                    if isinstance(exc, ast.Call) and isinstance(exc.func, ast.Name): name = exc.func.id
+                    v = self.fresh(t0.operand.id)
+                    self.emit(ind, f'let {v} ← match {x} with')
+                    self.emit(ind + 1, '| some v => pure v')
+                    self.emit(ind + 1, f'| none => throw {EXC.get(name, "PyErr.other")}')
+                    self.narrow[ast.dump(t0.operand)] = (v, xt[1])
+                    return
             # narrowing on an Optional value
             t = st.test
             if isinstance(t, (ast.Name, ast.Attribute)):
@@ -701,7 +829,18 @@ class Tr:
                     if isinstance(lt, tuple) and lt[0] == 'list' and lt[1] == xt:
                         self.write_attr(ind, c.func.value, f'pyRemoveAll {l} {x}')
                         return
-            raise Unsupported('while loop')
+            if not self.fn.uses_env: raise Unsupported('while loop')
+            # general loop: unrolled at most env.whileFuel times; if the condition still holds then, the translated
+            # function raises PyErr.nonTermination (the Python would go on; C01 proves this unreachable)
+            c, ct = self.expr(t)
+            self.emit(ind, 'for _ in List.range env.whileFuel do')
+            self.emit(ind + 1, f'if !({self.truthy(c, ct)}) then')
+            self.emit(ind + 2, 'break')
+            self.body(ind + 1, st.body)
+            c2, ct2 = self.expr(t)
+            self.emit(ind, f'if {self.truthy(c2, ct2)} then')
+            self.emit(ind + 1, 'throw PyErr.nonTermination')
+            return
         if isinstance(st, ast.Match):
             subj, stt = self.expr(st.subject)
             if stt != 'str': raise Unsupported('match subject type')
@@ -762,6 +901,9 @@ class Tr:
                     for t in st.targets:
                         if isinstance(t, ast.Name):
                             if t.id not in params: occ.setdefault(t.id, []).append((p, True, False))
+                        elif isinstance(t, ast.Tuple) and all(isinstance(x, ast.Name) for x in t.elts):
+                            for x in t.elts:
+                                if x.id not in params and x.id != '_': occ.setdefault(x.id, []).append((p, True, False))
                         else: walk_expr(t, p)
                 elif isinstance(st, ast.If):
                     if is_logger_call(st.test): continue
@@ -816,12 +958,14 @@ class Tr:
     def translate(self) -> str:
         self.scope_analysis()
         self.var_types = {}
-        if self.hoist:
+        if True:
             # dry run to learn the types of the hoisted locals
             dry = Tr(self.fn, self.fns, self.by_method)
             dry.scope_analysis(); dry.hoist = {}; dry.var_types = {}; dry.dry = True
             dry._translate()
             self.var_types = dict(dry.first_types)
+            for v, t in list(self.var_types.items()):        # `x = []` gets its element type from a later append / extend
+                if isinstance(t, tuple) and '?' in t and v in dry.locals: self.var_types[v] = dry.locals[v]
         return self._translate()
 
     dry = False
@@ -832,7 +976,7 @@ class Tr:
         params = []
         for i, (pn, pt) in enumerate(fn.params):
             self.locals[pn] = pt
-            if pt == 'graph': continue
+            if pt in ('graph', 'env'): continue
             params.append(f'({esc(pn)} : {lean_type(pt)})')
         if fn.mutates:
             if fn.ret != 'none': raise Unsupported(f'{fn.lean}: mutating function returning a value')
@@ -849,12 +993,13 @@ class Tr:
         elif isinstance(last, ast.Match):
             pass
         run = 'do' if fn.raises else 'Id.run do'
-        head = f'def {fn.lean} ' + ('(fuel : Nat) ' if fn.recursive else '') + '(s : H) ' + ' '.join(params)
+        head = f'def {fn.lean} ' + ('(fuel : Nat) ' if fn.recursive else '') + ('(env : EvalEnv) ' if fn.uses_env else '(s : H) ') + ' '.join(params)
         head = head.rstrip() + f' : {rty} :='
         src = f'-- {MODULES[fn.module][0]}: ' + (f'{fn.cls}.' if fn.cls else '') + fn.pyname + '\n'
         if fn.recursive:
-            base = ('pure s' if fn.raises else 's') if fn.mutates else None
-            if base is None: raise Unsupported('recursive function that does not mutate')
+            # out of fuel: a mutating function returns the heap as it is (the propagation functions; C08 proves the
+            # supplied fuel sufficient), a function that returns a value raises RecursionError like CPython
+            base = ('pure s' if fn.raises else 's') if fn.mutates else 'throw PyErr.recursionError'
             src += head + '\n  match fuel with\n  | 0 => ' + base + '\n  | fuel + 1 => ' + run + '\n'
         else:
             src += head + ' ' + run + '\n'
